@@ -65,7 +65,14 @@ def _check_part(out, part, expected, own, label, level):
         out.violation("%s: level %d partition unusable: %r" % (label, level, e), symptom="exception", kind=type(part).__name__, **sig)
 
 
+RACE_SCN = {"store": "cold", "shape": "partitions", "backend": "fs", "threads": 2}
+RACE_WHAT = 'two threads memoizing different partitions through one store'
+
+
 def execute(case, scratch):
+    if case.get("kind") == "race":
+        from checks import c09
+        return c09.execute_race(case, scratch, RACE_WHAT)
     out = core.Outcome()
     d = env.fresh_dir(scratch, "c17-")
     try:
@@ -173,6 +180,11 @@ def strategy():
 
 def run_shard(ctx):
     stats = core.Stats()
+    # race family: every one-preemption interleaving (every 3rd yield point in quick) under C09's deterministic scheduler
+    from checks import c09
+    core.enum_search(c09.race_family(RACE_SCN, ctx.scratch, 1 if ctx.tier == "thorough" else 3), lambda c: execute(c, ctx.scratch), stats,
+                     findings=ctx.findings, shard=ctx.shard, nshards=ctx.nshards,
+                     deadline_s=max((ctx.deadline - time.time()) * 0.35, 5) if ctx.deadline else None)
     core.hyp_search(strategy(), lambda c: execute(c, ctx.scratch), stats, max_examples=15000 if ctx.tier == "thorough" else 300,
                     seed=core.hash64(ctx.seed, ID, ctx.shard), findings=ctx.findings,
                     deadline_s=(ctx.deadline - time.time()) if ctx.deadline else None)
